@@ -402,7 +402,7 @@ impl<'a> PathRun<'a> {
                 let f = obs.found[*i].clone().unwrap();
                 if guard(|| eg.eq(h, &f)).unwrap_or(false) && spec.lab[*ui] != spec.lab[*i] {
                     self.finding("C01", "an earlier invocation compares equal to a term its own term is not congruent to", key, path, step, "",
-                        json!({"handle_of": ctx.us[*ui].show(), "equal_to": ctx.us[*i].show()}));
+                        json!({"handle_of": ctx.us[*ui].show(), "equal_to": ctx.us[*i].show(), "pair": [ctx.us[*ui], ctx.us[*i]]}));
                     return;
                 }
             }
@@ -470,7 +470,7 @@ impl<'a> PathRun<'a> {
                 if *s0 != sc && !c01 {
                     c01 = true;
                     self.finding("C01", "reported equal but not implied", key, path, step, "",
-                        json!({"t": ctx.us[*j].show(), "u": ctx.us[i].show()}));
+                        json!({"t": ctx.us[*j].show(), "u": ctx.us[i].show(), "pair": [ctx.us[*j], ctx.us[i]]}));
                 }
             } else {
                 impl2spec.insert(ic, (sc, i));
@@ -504,8 +504,18 @@ impl<'a> PathRun<'a> {
                 continue; // no spare name: the specification cannot decide redundancy
             }
             if !want.is_subset(&got) {
-                self.finding("C01", "class dropped a slot its terms depend on", key, path, step, "",
-                    json!({"term": ctx.us[ui].show(), "impl_slots": got, "spec_nonredundant": want}));
+                // the dropped slot x is redundant iff t = t[x <-> z] for a spare name z: that pair
+                // lets the alarm be confirmed (or refuted) by a checked proof
+                let x = *want.difference(&got).next().unwrap();
+                let names = ctx.us[ui].names();
+                let z = (1..=ctx.uni.n).find(|k| !names.contains(k));
+                let pair = z.map(|z| {
+                    let sw = |k: u32| if k == x { z } else if k == z { x } else { k };
+                    json!([ctx.us[ui], ctx.us[ui].ren(&sw)])
+                });
+                let mut d = json!({"term": ctx.us[ui].show(), "impl_slots": got, "spec_nonredundant": want});
+                if let Some(p) = pair { d["pair"] = p; }
+                self.finding("C01", "class dropped a slot its terms depend on", key, path, step, "", d);
             }
             if !got.is_subset(&want) {
                 self.finding("C02", "redundant slot not detected", key, path, step, "",
@@ -515,8 +525,20 @@ impl<'a> PathRun<'a> {
                 match guard(|| sym_count(eg, a)) {
                     Ok(c) => {
                         if c > spec.syms[ti] {
-                            self.finding("C01", "more symmetries than derivable", key, path, step, "",
-                                json!({"term": ctx.us[ui].show(), "impl": c, "spec": spec.syms[ti]}));
+                            // exhibit one permuted copy the implementation accepts and the specification does not
+                            let fvs = ctx.us[ui].fv();
+                            let mut d = json!({"term": ctx.us[ui].show(), "impl": c, "spec": spec.syms[ti]});
+                            for p in perms(fvs.len()) {
+                                let m = |k: u32| fvs.iter().position(|x| *x == k).map(|i| fvs[p[i]]).unwrap_or(k);
+                                let tp = ctx.us[ui].ren(&m);
+                                if let Some(j) = ctx.us_index.get(&tp) {
+                                    if spec.lab[*j] != spec.lab[ui] && obs.cls[*j] == obs.cls[ui] && obs.cls[ui] != 0 {
+                                        d["pair"] = json!([ctx.us[ui], tp]);
+                                        break;
+                                    }
+                                }
+                            }
+                            self.finding("C01", "more symmetries than derivable", key, path, step, "", d);
                         }
                         if c < spec.syms[ti] {
                             self.finding("C02", "derivable symmetry missing", key, path, step, "",
